@@ -17,6 +17,12 @@ import Proofs.Lemmas.Hist
   Part C: the four simulation drivers, for every kind, every consist composition, every interval
           `None | Some n (n ≥ 1)`, every number of executed steps, with and without a final failing step,
           and every script of user operations (manual steps, failing steps, interval changes, walks).
+  Part D: NON-UNIFORM nested intervals.  `Op.poke k v` (raw write of a nested object's pub `save_interval`
+          field) and `Op.setAt k v` (a nested object's own `set_save_interval`) leave the tree with different
+          intervals at different levels.  The top-level `set_save_interval(v)` erases every trace of them
+          (`C19_set_absorbs_poke`: EXACTLY the tree the setter alone produces, for every state of every
+          shape), and scripts in which every run of such writes is followed by a top-level set before the
+          next step / walk keep the tree aligned (`C19_any_script_aligned_poked`).
 
   What the code does (and the theorems state precisely): all counters start at 1; the row written after
   executed step `j` carries `i = j`; `walk` saves once before the loop, which records the initial state
@@ -401,6 +407,8 @@ theorem C19_error_keeps_rows : C19_error_keeps_rows_statement := by
     all counters equal, all intervals equal, all histories equal as lists of step indices. -/
 def opOk : Op → Prop
   | .set v => v ≠ some 0
+  | .poke _ _ => False     -- writes to nested intervals: see Part D (`C19_any_script_aligned_poked`)
+  | .setAt _ _ => False
   | _ => True
 
 theorem runR_aligned : ∀ (ops : List Op) (t : Tree) (c : Nat) (n : Option Nat) (h : List Nat),
@@ -419,6 +427,8 @@ theorem runR_aligned : ∀ (ops : List Op) (t : Tree) (c : Nat) (n : Option Nat)
       obtain ⟨e, a, w'⟩ := iterOk_canonical t c n h w hn ha
       obtain ⟨t', r⟩ := runR_aligned os _ _ n _ w' hn a hos
       exact ⟨t', by simpa only [runR, opR, e, Res.bind] using r⟩
+    | poke _ _ => exact absurd ho id
+    | setAt _ _ => exact absurd ho id
     | stepFail =>
       obtain ⟨t', r⟩ := runR_aligned os t c n h w hn ha hos
       exact ⟨t', by simpa only [runR, opR, C19_failing_step_changes_nothing t, Res.bind] using r⟩
@@ -446,13 +456,317 @@ theorem C19_any_script_aligned : C19_any_script_aligned_statement := by
   rw [drivers_canonical.1 kind]
   exact runR_aligned ops _ 1 n [] w hn a hok
 
-/-! ## non-vacuity: the statements instantiated on concrete simulations -/
+/-! ## Part D — non-uniform nested intervals: `poke`, `setAt` -/
 
 /-- i-columns of all histories in the tree -/
 def cols (r : Res Tree) : List (List Nat) :=
   match r with
   | .ok t => (nodes t).filterMap (fun x => if x.1.hasHist then some x.2.2.2 else none)
   | _ => []
+
+/-- the dump of a result, as the driver prints it -/
+def dump' (r : Res Tree) : List String :=
+  match r with
+  | .ok t => dump t
+  | _ => []
+
+/-- the intervals of all interval-carrying objects in the tree, in the order `poke` / `setAt` count them -/
+def ivs (r : Res Tree) : List (Option Nat) :=
+  match r with
+  | .ok t => (nodes t).filterMap (fun x => if x.1.hasInterval then some x.2.2.1 else none)
+  | _ => []
+
+/-- a write to the interval of a nested object, behind the back of the top-level cascade -/
+def isNestedWrite : Op → Bool
+  | .poke _ _ => true
+  | .setAt _ _ => true
+  | _ => false
+
+/-- **arbitrary tree, raw write.**  Whatever interval the k-th interval-carrying object is given, a following
+    top-level `set_save_interval(v)` produces exactly the tree it produces without the write. -/
+def C19_set_absorbs_poke_tree_statement : Prop :=
+  ∀ (t : Tree) (k : Nat) (w v : Option Nat),
+    wfSet 1 [] t = true →      -- forced: a `save_interval` the cascade does not write keeps the poked value
+    setT 1 [] v (pokeT k w t) = setT 1 [] v t
+
+theorem C19_set_absorbs_poke_tree : C19_set_absorbs_poke_tree_statement :=
+  fun t k w v hw => setT_absorbs_pokeT v w k t 1 [] hw
+
+/-- **arbitrary tree, a nested object's own setter.** -/
+def C19_set_absorbs_setAt_tree_statement : Prop :=
+  ∀ (t : Tree) (k : Nat) (w v : Option Nat),
+    wfSet 1 [] t = true →      -- forced, as above
+    setClean t = true →        -- forced: `C19_setAt_needs_clean_counterexample`
+    setT 1 [] v (setAtT k w t) = setT 1 [] v t
+
+theorem C19_set_absorbs_setAt_tree : C19_set_absorbs_setAt_tree_statement :=
+  fun t k w v hw hc => setT_absorbs_setAtT v w k t 1 [] hw hc
+
+/-- The hypothesis `setClean` is forced for EXACT equality of trees.  In this (artificial) table the root
+    assigns `a.save_interval` directly, `a`'s own setter calls the setter of `b`, and `b`'s setter writes a
+    `save_interval` although `b` has none (impossible in Rust: the field would not exist).  The covering
+    check `wfSet` passes, yet `a.set_save_interval(Some 5)` followed by the top-level set leaves the value 5
+    in `b`'s (dummy) slot. -/
+def uncleanTree : Tree :=
+  .node { name := "r", hasI := true, hasHist := false, hasInterval := true, stepSelf := 1, saveSelf := 0, setSelf := 1,
+          setDeep := [[0]], tag := 0, stepCalls := 1, saveOut := 1, saveIn := 0, setCalls := 1 } 1 none []
+    [.node { name := "a", hasI := true, hasHist := false, hasInterval := true, stepSelf := 1, saveSelf := 0, setSelf := 1,
+             setDeep := [], tag := 0, stepCalls := 1, saveOut := 1, saveIn := 0, setCalls := 0 } 1 none []
+      [.node { name := "b", hasI := true, hasHist := false, hasInterval := false, stepSelf := 1, saveSelf := 0, setSelf := 1,
+               setDeep := [], tag := 0, stepCalls := 1, saveOut := 1, saveIn := 0, setCalls := 1 } 1 none [] []]]
+
+theorem C19_setAt_needs_clean_counterexample :
+    wfSet 1 [] uncleanTree = true ∧ setClean uncleanTree = false ∧
+    (nodes (setT 1 [] (some 2) (setAtT 1 (some 5) uncleanTree))).map (fun x => x.2.2.1) = [some 2, some 2, some 5] ∧
+    (nodes (setT 1 [] (some 2) uncleanTree)).map (fun x => x.2.2.1) = [some 2, some 2, none] := by
+  decide
+
+/-- any run of nested writes in front of a top-level set, on an arbitrary tree -/
+theorem set_absorbs_writes_tree (order : List Phase) (v : Option Nat) :
+    ∀ (ps : List Op) (t : Tree), wfSet 1 [] t = true → setClean t = true →
+      (∀ o ∈ ps, isNestedWrite o = true) →
+      runR order (ps ++ [.set v]) t = runR order [.set v] t
+  | [], _, _, _, _ => rfl
+  | o :: ps, t, hw, hc, hp => by
+    have hps : ∀ o ∈ ps, isNestedWrite o = true := fun o ho => hp o (List.mem_cons_of_mem _ ho)
+    have ho := hp o (List.mem_cons_self ..)
+    have hset : ∀ t : Tree, runR order [.set v] t = .ok (setT 1 [] v t) := fun _ => rfl
+    cases o with
+    | poke k w =>
+      have e := static_congr (skel_pokeT k w t)
+      have ih := set_absorbs_writes_tree order v ps (pokeT k w t) (by rw [e.2.2.1]; exact hw)
+        (by rw [e.2.2.2.2]; exact hc) hps
+      simp only [List.cons_append, runR, opR, Res.bind] at ih ⊢
+      rw [ih, setT_absorbs_pokeT v w k t 1 [] hw]
+    | setAt k w =>
+      have e := static_congr (skel_setAtT k w t)
+      have ih := set_absorbs_writes_tree order v ps (setAtT k w t) (by rw [e.2.2.1]; exact hw)
+        (by rw [e.2.2.2.2]; exact hc) hps
+      simp only [List.cons_append, runR, opR, Res.bind] at ih ⊢
+      rw [ih, setT_absorbs_setAtT v w k t 1 [] hw hc]
+    | set _ => cases ho
+    | step => cases ho
+    | stepFail => cases ho
+    | walk _ _ _ => cases ho
+
+/-! ### the new obligation on the regenerated tables -/
+
+/-- every locomotive variant: `Locomotive::set_save_interval` (own field + the direct assignments into the
+    powertrain) writes only objects that have a `save_interval` -/
+theorem consistLoco_setClean (v : Variant) :
+    wfSetOnly (1 * (consistLoco v).info.setCalls) (strip (consistLoco v).info.tag []) (consistLoco v) = true ∧
+    everyIvT (wfSetOnly 1 []) (consistLoco v) = true := by
+  cases v <;> exact ⟨by decide, by decide⟩
+
+/-- the consist of ANY composition, under any caller -/
+theorem consist_setClean (nm : String) (tag sc so si st : Nat) (vs : List Variant) :
+    wfSetOnly 1 [] (consistWith nm tag sc so si st vs) = true ∧
+    setClean (consistWith nm tag sc so si st vs) = true := by
+  have h1 : wfSetOnly 1 [] (consistWith nm tag sc so si st vs) = true := by
+    simp only [consistWith, wfSetOnly, Bool.and_eq_true]
+    exact ⟨rfl, wfSetOnlyL_map _ _ _ (fun v => (consistLoco_setClean v).1) vs⟩
+  refine ⟨h1, ?_⟩
+  unfold setClean
+  simp only [consistWith] at h1 ⊢
+  exact everyIvT_node (by rw [h1]; rfl) (fun k hk => by
+    obtain ⟨v, _, rfl⟩ := List.mem_map.1 hk
+    exact (consistLoco_setClean v).2)
+
+/-- **every simulation kind, every consist composition**: every setter in the tree — the simulation's, the
+    consist's, each locomotive's — writes only objects that have a `save_interval` -/
+theorem shape_setClean (kind : Kind) (vs : List Variant) : setClean (shape kind vs) = true := by
+  cases kind
+  · rw [shape_loco_eq]
+    cases vs.headD .ConventionalLoco <;> decide
+  · unfold setClean
+    simp only [shape]
+    exact everyIvT_node rfl (fun k hk => by
+      kid_cases hk
+      exact (consist_setClean _ _ _ _ _ _ vs).2)
+  · have hc := consist_setClean "loco_con" 0 1 0 1 1 vs
+    unfold setClean
+    simp only [shape]
+    refine everyIvT_node ?_ (fun k hk => by kid_cases hk; exact hc.2)
+    rw [wfSetOnly_node (by decide) (fun k hk => by kid_cases hk; exact hc.1)]
+    rfl
+  · have hc := consist_setClean "loco_con" 0 1 0 1 1 vs
+    unfold setClean
+    simp only [shape]
+    refine everyIvT_node ?_ (fun k hk => by
+      kid_cases hk
+      · exact hc.2
+      · decide)
+    rw [wfSetOnly_node (by decide) (fun k hk => by
+      kid_cases hk
+      · exact hc.1
+      · decide)]
+    rfl
+
+/-- a STATE of the object tree of simulation `kind` with composition `vs`: any tree with the same static
+    part (same objects, same call tables), whatever its counters, intervals and histories are -/
+def StateOf (kind : Kind) (vs : List Variant) (t : Tree) : Prop := skel t = skel (shape kind vs)
+
+theorem stateOf_tables {kind : Kind} {vs : List Variant} {t : Tree} (h : StateOf kind vs t) :
+    WF t ∧ setClean t = true := by
+  have e := static_congr h
+  obtain ⟨w, _, _⟩ := shape_wf kind vs
+  exact ⟨⟨by rw [e.1]; exact w.1, by rw [e.2.1]; exact w.2.1, by rw [e.2.2.1]; exact w.2.2⟩,
+    by rw [e.2.2.2.2]; exact shape_setClean kind vs⟩
+
+/-- what `new` builds, and everything a script makes of it, is a state of the shape -/
+theorem stateOf_new (kind : Kind) (vs : List Variant) (n : Option Nat) :
+    StateOf kind vs (newT (newProg kind) n (shape kind vs)) := by
+  rw [new_is_cascade]
+  exact skel_setT 1 [] n _
+
+/-- **C19, the top-level setter reaches every nested object whatever it held before.**  For every
+    simulation kind, every consist composition and EVERY state of that object tree (any counters, any
+    histories, any — also non-uniform — intervals): after any run of raw writes to nested `save_interval`
+    fields and of calls of nested objects' own setters, `set_save_interval(v)` at the top level gives
+    EXACTLY the tree that `set_save_interval(v)` alone gives. -/
+def C19_set_absorbs_poke_statement : Prop :=
+  ∀ (kind : Kind) (vs : List Variant) (t : Tree), StateOf kind vs t →
+    ∀ (ps : List Op) (v : Option Nat), (∀ o ∈ ps, isNestedWrite o = true) →
+      runR (stepOrder kind) (ps ++ [.set v]) t = runR (stepOrder kind) [.set v] t
+
+theorem C19_set_absorbs_poke : C19_set_absorbs_poke_statement := by
+  intro kind vs t hs ps v hp
+  obtain ⟨w, c⟩ := stateOf_tables hs
+  exact set_absorbs_writes_tree _ v ps t w.2.2 c hp
+
+/-- … in particular every interval in the tree is `v` afterwards -/
+theorem set_after_writes_uniform (kind : Kind) (vs : List Variant) (t : Tree) (hs : StateOf kind vs t)
+    (ps : List Op) (v : Option Nat) (hp : ∀ o ∈ ps, isNestedWrite o = true) :
+    ∃ t', runR (stepOrder kind) (ps ++ [.set v]) t = .ok t' ∧ AllT (PV v) t' := by
+  rw [C19_set_absorbs_poke kind vs t hs ps v hp]
+  exact ⟨_, rfl, setT_PV v t 1 [] (stateOf_tables hs).1.2.2⟩
+
+/-! ### scripts with nested writes -/
+
+/-- The script checker.  The flag means "some interval may differ from the others (a nested write has not
+    yet been followed by a top-level set), or the common interval is `Some 0`": in that state only further
+    interval writes and failing steps (which change nothing) are admitted, and the script must not end.
+    `set v` with `v ≠ Some 0` clears the flag. -/
+def scriptOkFrom : Bool → List Op → Bool
+  | dirty, [] => !dirty
+  | _, .set v :: os => scriptOkFrom (v == some 0) os
+  | _, .poke _ _ :: os => scriptOkFrom true os
+  | _, .setAt _ _ :: os => scriptOkFrom true os
+  | dirty, .stepFail :: os => scriptOkFrom dirty os
+  | dirty, .step :: os => !dirty && scriptOkFrom false os
+  | dirty, .walk _ _ _ :: os => !dirty && scriptOkFrom false os
+
+/-- every maximal run of nested writes is followed by a top-level set before the next step / walk / the end -/
+def scriptOk (ops : List Op) : Bool := scriptOkFrom false ops
+
+theorem WF_congr {t t' : Tree} (e : skel t' = skel t) (w : WF t) : WF t' := by
+  have h := static_congr e
+  exact ⟨by rw [h.1]; exact w.1, by rw [h.2.1]; exact w.2.1, by rw [h.2.2.1]; exact w.2.2⟩
+
+theorem runR_aligned_poked : ∀ (ops : List Op) (dirty : Bool) (t : Tree) (c : Nat) (h : List Nat),
+    WF t → AllT (PI c) t → AllT (PH h) t →
+    (dirty = false → ∃ n, n ≠ some 0 ∧ AllT (PV n) t) →
+    scriptOkFrom dirty ops = true →
+    ∃ t' c' n' h', runR canonical ops t = .ok t' ∧ n' ≠ some 0 ∧ Aligned c' n' h' t'
+  | [], dirty, t, c, h, _, a, d, hv, hs => by
+    simp only [scriptOkFrom, Bool.not_eq_true'] at hs
+    obtain ⟨n, hn, b⟩ := hv hs
+    exact ⟨t, c, n, h, rfl, hn, a, b, d⟩
+  | o :: os, dirty, t, c, h, w, a, d, hv, hs => by
+    cases o with
+    | set v =>
+      simp only [scriptOkFrom] at hs
+      obtain ⟨t', r⟩ := runR_aligned_poked os (v == some 0) (setT 1 [] v t) c h (WF_set v w)
+        (setT_keeps (fun _ _ _ _ _ x => x) 1 [] v t a) (setT_keeps (fun _ _ _ _ _ x => x) 1 [] v t d)
+        (fun e => ⟨v, fun e' => by rw [e'] at e; simp at e, setT_PV v t 1 [] w.2.2⟩) hs
+      exact ⟨t', by simpa only [runR, opR, Res.bind] using r⟩
+    | poke k x =>
+      simp only [scriptOkFrom] at hs
+      obtain ⟨t', r⟩ := runR_aligned_poked os true (pokeT k x t) c h (WF_congr (skel_pokeT k x t) w)
+        (pokeT_keeps (fun _ _ _ _ _ y => y) k x t a) (pokeT_keeps (fun _ _ _ _ _ y => y) k x t d)
+        (fun e => by cases e) hs
+      exact ⟨t', by simpa only [runR, opR, Res.bind] using r⟩
+    | setAt k x =>
+      simp only [scriptOkFrom] at hs
+      obtain ⟨t', r⟩ := runR_aligned_poked os true (setAtT k x t) c h (WF_congr (skel_setAtT k x t) w)
+        (setAtT_keeps (fun _ _ _ _ _ y => y) k x t a) (setAtT_keeps (fun _ _ _ _ _ y => y) k x t d)
+        (fun e => by cases e) hs
+      exact ⟨t', by simpa only [runR, opR, Res.bind] using r⟩
+    | stepFail =>
+      simp only [scriptOkFrom] at hs
+      obtain ⟨t', r⟩ := runR_aligned_poked os dirty t c h w a d hv hs
+      exact ⟨t', by simpa only [runR, opR, C19_failing_step_changes_nothing t, Res.bind] using r⟩
+    | step =>
+      simp only [scriptOkFrom, Bool.and_eq_true, Bool.not_eq_true'] at hs
+      obtain ⟨n, hn, b⟩ := hv hs.1
+      obtain ⟨e, a', w'⟩ := iterOk_canonical t c n h w hn ⟨a, b, d⟩
+      obtain ⟨t', r⟩ := runR_aligned_poked os false _ _ _ w' a'.1 a'.2.2 (fun _ => ⟨n, hn, a'.2.1⟩) hs.2
+      exact ⟨t', by simpa only [runR, opR, e, Res.bind] using r⟩
+    | walk s k f =>
+      simp only [scriptOkFrom, Bool.and_eq_true, Bool.not_eq_true'] at hs
+      obtain ⟨n, hn, b⟩ := hv hs.1
+      obtain ⟨t1, h1, e1, a1, w1⟩ := savesR_aligned s t c n h w hn ⟨a, b, d⟩
+      obtain ⟨t2, e2, a2, w2⟩ := stepsR_canonical k t1 c n h1 w1 hn a1
+      obtain ⟨t', r⟩ := runR_aligned_poked os false t2 _ _ w2 a2.1 a2.2.2 (fun _ => ⟨n, hn, a2.2.1⟩) hs.2
+      refine ⟨t', ?_⟩
+      have : opR canonical t (.walk s k f) = .ok t2 := by
+        simp only [opR, walkR, e1, Res.bind, e2]
+        cases f
+        · rfl
+        · exact C19_failing_step_changes_nothing t2
+      simpa only [runR, this, Res.bind] using r
+
+/-- **C19, any usage, including writes to nested intervals.**  Any script on a simulation of any kind and
+    composition in which every maximal run of nested interval writes (`poke`, `setAt`, with ANY values,
+    `Some 0` included) is followed by a top-level `set_save_interval(v)`, `v ≠ Some 0`, before the next
+    `step` / `walk` and before the end, never panics and leaves the whole tree aligned.  A constructor
+    interval `Some 0` is admitted when the script repairs it by a top-level set before stepping (the
+    checker starts with the flag raised). -/
+def C19_any_script_aligned_poked_statement : Prop :=
+  ∀ (kind : Kind) (vs : List Variant) (n : Option Nat) (ops : List Op),
+    scriptOkFrom (n == some 0) ops = true →   -- forced: `C19_poke_without_set_counterexample`
+    ∃ t' c' n' h', runR (stepOrder kind) ops (newT (newProg kind) n (shape kind vs)) = .ok t' ∧
+      Aligned c' n' h' t'
+
+theorem C19_any_script_aligned_poked : C19_any_script_aligned_poked_statement := by
+  intro kind vs n ops hs
+  obtain ⟨a, w⟩ := new_aligned kind vs n
+  rw [drivers_canonical.1 kind]
+  obtain ⟨t', c', n', h', r, _, al⟩ := runR_aligned_poked ops (n == some 0) _ 1 [] w a.1 a.2.2
+    (fun e => ⟨n, fun e' => by rw [e'] at e; simp at e, a.2.1⟩) hs
+  exact ⟨t', c', n', h', r, al⟩
+
+/-- it generalises `C19_any_script_aligned`: a script of admitted plain ops passes the checker -/
+theorem scriptOk_of_opOk : ∀ ops : List Op, (∀ o ∈ ops, opOk o) → scriptOk ops = true
+  | [], _ => rfl
+  | o :: os, hok => by
+    have ih := scriptOk_of_opOk os (fun o ho => hok o (List.mem_cons_of_mem _ ho))
+    have ho := hok o (List.mem_cons_self ..)
+    unfold scriptOk at ih ⊢
+    cases o with
+    | set v =>
+      have : (v == some 0) = false := by
+        cases hv : v == some 0
+        · rfl
+        · exact absurd (by simpa using hv) ho
+      simp only [scriptOkFrom, this]; exact ih
+    | poke _ _ => exact absurd ho id
+    | setAt _ _ => exact absurd ho id
+    | stepFail => simpa only [scriptOkFrom] using ih
+    | step => simpa only [scriptOkFrom, Bool.not_false, Bool.true_and] using ih
+    | walk _ _ _ => simpa only [scriptOkFrom, Bool.not_false, Bool.true_and] using ih
+
+/-- The checker's demand is forced: a component given its own interval and NOT followed by a top-level set
+    records rows the rest of the tree does not (consist simulation, interval 1, `fc.save_interval = None`,
+    one step). -/
+theorem C19_poke_without_set_counterexample :
+    scriptOk [.poke 2 none, .step] = false ∧
+    cols (runR (stepOrder .consist) [.poke 2 none, .step]
+      (newT (newProg .consist) (some 1) (shape .consist [.ConventionalLoco])))
+      = [[1], [1], [], [1], [1]] := by
+  decide +kernel
+
+/-! ## non-vacuity: the statements instantiated on concrete simulations -/
 
 /-- speed-limited train, consist [conventional, battery, hybrid], interval 3, 7 steps then an error:
     15 histories, each `[3, 6]` -/
@@ -484,5 +798,57 @@ example : Aligned 1 (some 3) [] (newT (newProg .speedLimit) (some 3) (shape .spe
 example : (match walkR (stepOrder .consist) (walkInitSaves .consist) 3 false
       (newT (newProg .consist) (some 0) (shape .consist [.BatteryElectricLoco])) with
     | .panic _ => true | _ => false) = true := by decide +kernel
+
+/-- Part D on a concrete consist simulation [conventional, battery]: 8 objects with an interval
+    (consist, loco 0, fc, gen, edrv, loco 1, res, edrv).  `gen.save_interval = Some 5`, then loco 1's own
+    setter with `None`: the tree is non-uniform; the top-level set with the value the consist ALREADY holds
+    (3) makes it uniform again, and it is exactly the tree the set alone gives. -/
+example :
+    ivPaths (shape .consist [.ConventionalLoco, .BatteryElectricLoco]) =
+      ["ConsistSimulation.loco_con#0", "ConsistSimulation.loco_con#0.loco_vec#0",
+       "ConsistSimulation.loco_con#0.loco_vec#0.loco_type#0.ConventionalLoco#0.fc#0",
+       "ConsistSimulation.loco_con#0.loco_vec#0.loco_type#0.ConventionalLoco#0.gen#1",
+       "ConsistSimulation.loco_con#0.loco_vec#0.loco_type#0.ConventionalLoco#0.edrv#2",
+       "ConsistSimulation.loco_con#0.loco_vec#1",
+       "ConsistSimulation.loco_con#0.loco_vec#1.loco_type#0.BatteryElectricLoco#0.res#0",
+       "ConsistSimulation.loco_con#0.loco_vec#1.loco_type#0.BatteryElectricLoco#0.edrv#1"] ∧
+    ivs (runR (stepOrder .consist) [.step, .poke 3 (some 5), .setAt 5 none]
+      (newT (newProg .consist) (some 3) (shape .consist [.ConventionalLoco, .BatteryElectricLoco])))
+      = [some 3, some 3, some 3, some 5, some 3, none, none, none] ∧
+    ivs (runR (stepOrder .consist) [.step, .poke 3 (some 5), .setAt 5 none, .set (some 3)]
+      (newT (newProg .consist) (some 3) (shape .consist [.ConventionalLoco, .BatteryElectricLoco])))
+      = List.replicate 8 (some 3) ∧
+    dump' (runR (stepOrder .consist) [.step, .poke 3 (some 5), .setAt 5 none, .set (some 3)]
+      (newT (newProg .consist) (some 3) (shape .consist [.ConventionalLoco, .BatteryElectricLoco])))
+      = dump' (runR (stepOrder .consist) [.step, .set (some 3)]
+      (newT (newProg .consist) (some 3) (shape .consist [.ConventionalLoco, .BatteryElectricLoco]))) := by
+  decide +kernel
+
+/-- the hypotheses of `C19_set_absorbs_poke` and of `C19_any_script_aligned_poked` on a concrete
+    speed-limited simulation: the constructed object is a state of its shape, the writes are nested writes,
+    the script passes the checker — and the histories stay equal through poke → set → steps -/
+example : StateOf .speedLimit [.HybridLoco, .ConventionalLoco]
+    (newT (newProg .speedLimit) (some 2) (shape .speedLimit [.HybridLoco, .ConventionalLoco])) :=
+  stateOf_new _ _ _
+example : ∀ o ∈ [Op.setAt 1 (some 0), Op.poke 4 (some 9), Op.poke 11 none], isNestedWrite o = true := by decide
+/-- the table hypotheses of the Part D tree theorems (`wfSet 1 []`, `setClean`) on a concrete generated shape -/
+example : wfSet 1 [] (shape .speedLimit [.ConventionalLoco, .HybridLoco]) = true ∧
+    setClean (shape .speedLimit [.ConventionalLoco, .HybridLoco]) = true := by decide
+example : scriptOk [.step, .setAt 1 (some 0), .poke 4 (some 9), .poke 11 none, .set (some 2), .step, .walk 1 3 false] = true := by
+  decide
+example :
+    ivs (runR (stepOrder .speedLimit) [.step, .setAt 1 (some 0), .poke 4 (some 9), .poke 11 none]
+      (newT (newProg .speedLimit) (some 2) (shape .speedLimit [.HybridLoco, .ConventionalLoco])))
+      = [some 2, some 0, some 0, some 0, some 9, some 0, some 0, some 0, some 0, some 0, some 0, none] ∧
+    cols (runR (stepOrder .speedLimit) [.step, .setAt 1 (some 0), .poke 4 (some 9), .poke 11 none, .set (some 2), .step, .walk 1 3 false]
+      (newT (newProg .speedLimit) (some 2) (shape .speedLimit [.HybridLoco, .ConventionalLoco])))
+      = List.replicate 12 [2, 4] := by
+  decide +kernel
+
+/-- a constructor interval `Some 0` repaired by a top-level set before the first step -/
+example : scriptOkFrom (some 0 == some 0) [.set (some 1), .step, .step] = true ∧
+    cols (runR (stepOrder .loco) [.set (some 1), .step, .step]
+      (newT (newProg .loco) (some 0) (shape .loco [.BatteryElectricLoco]))) = List.replicate 3 [1, 2] := by
+  decide +kernel
 
 end Altrios.Proofs.C19
